@@ -104,6 +104,20 @@ CLAIMED = {
         "Trusted: Lean kernel, standard axioms, hand model (exact sampled correspondence), numpy slicing.",
         "Lean 4 proof (quantified over all model functions) + exact correspondence + contract oracle on every "
         "registered model", "DESIGN.md §5 C13"),
+    "C02": (
+        "Machine-checked Lean 4 proof over the reals about model functions that are REGENERATED from the Python "
+        "AST of the five shipped model_func bodies on every run: each equals its documented closed form for all "
+        "parameters and abscissae, is exactly the baseline outside contact, obeys translation / baseline / "
+        "modulus-linearity laws, the power-law models scale as C11 needs, the paraboloid is monotone in depth, "
+        "and the four coefficients of the truncated sphere series are the Taylor coefficients of the exact "
+        "Sneddon solution (power-series identity mod u^5 checked by kernel computation on the coefficients "
+        "extracted from the same AST). The translator is validated every run by executing its Float rendering "
+        "against numpy. Partial: the 1e-4 series error bound up to depth R and floating-point round-off are "
+        "measured on grids, not proved.",
+        "Trusted: Lean kernel, standard axioms (Mathlib reals), the AST translator (validated against numpy "
+        "within 16 ulp), the hand-written documented formulas (constants cross-checked with the live docstrings).",
+        "Lean 4 proof about definitions regenerated from source (translator) + Float-rendering validation + "
+        "formula/series oracle", "DESIGN.md §5 C02"),
 }
 
 PENDING_REASON = "check not built yet in this round (planned, see DESIGN.md §8); not claimed until its machinery exists"
